@@ -17,6 +17,8 @@
 //!   escape        a created/changed/deleted path lies outside the directories
 //!                 of the owners named in the request (server bookkeeping
 //!                 files agdb_server.agdb/.log are exempt)
+//!   not-own-file  (2xx) a touched file is not in the file set of any database the request names
+//!   left-behind   (2xx transfer to another owner) a file of the database still exists in the old owner's directory
 //!   foreign-file  a touched path belongs to the file set (main, .main recovery
 //!                 log, backups/N.bak, backups/N.log, audit/N.log) of a
 //!                 registered database the request does not name
@@ -77,6 +79,8 @@ fn names() -> Vec<(String, bool)> {
         ("d\u{e4}tab\u{e1}se-\u{6570}\u{636e}\u{5e93}", false),
         ("line\nbreak", false),
         ("plain_name-1", false),
+        ("w", false),
+        ("y", false),
     ];
     let mut out: Vec<(String, bool)> = v.into_iter().map(|(a, b)| (a.to_string(), b)).collect();
     out.push((long255, false));
@@ -269,6 +273,8 @@ fn group_a(n: &str, raw: bool) -> Vec<Vec<Step>> {
         out.push(vec![s(Req::new("admin", "POST", &format!("/admin/db/usr1/y/copy?new_owner=usr1&new_db={e}"), None, "admin-copy-to"), &[("usr1", "y"), ("usr1", n)], Some(("usr1", n)), None)]);
         out.push(vec![s(Req::new("admin", "POST", &format!("/admin/db/usr1/y/rename?new_owner=usr1&new_db={e}"), None, "admin-rename-to"), &[("usr1", "y"), ("usr1", n)], Some(("usr1", n)), Some(("usr1", "y")))]);
         out.push(vec![s(Req::new("usr2", "POST", &format!("/db/usr1/y/copy?new_db={e}"), None, "copy-to-other-owner"), &[("usr1", "y"), ("usr2", n)], Some(("usr2", n)), None)]);
+        // ownership transfer: y (which has an audit log and a backup) becomes usr2/N
+        out.push(vec![s(Req::new("admin", "POST", &format!("/admin/db/usr1/y/rename?new_owner=usr2&new_db={e}"), None, "admin-transfer-to"), &[("usr1", "y"), ("usr2", n)], Some(("usr2", n)), Some(("usr1", "y")))]);
     }
     out
 }
@@ -334,20 +340,20 @@ fn group_c(pairs: &[String]) -> Vec<Vec<Step>> {
 fn base_world() -> Base {
     let w = write_query();
     let mut script = vec![Setup::AddUser("usr1"), Setup::AddUser("usr2"), Setup::AddUser("usr3"), Setup::Login("usr1", "usr1"), Setup::Login("usr2", "usr2"), Setup::Login("usr3", "usr3")];
-    for (u, d) in [("usr1", "x"), ("usr1", "y"), ("usr2", "x")] {
+    for (u, d) in [("usr1", "x"), ("usr1", "y"), ("usr1", "w"), ("usr2", "x")] {
         script.push(Setup::Call(u, "POST", format!("/db/{u}/{d}/add?db_type=mapped"), None));
         script.push(Setup::Call(u, "POST", format!("/db/{u}/{d}/exec_mut"), Some(w.clone())));
         script.push(Setup::Call(u, "POST", format!("/db/{u}/{d}/backup"), None));
         script.push(Setup::Call(u, "POST", format!("/db/{u}/{d}/exec_mut"), Some(w.clone())));
     }
     script.push(Setup::Call("usr1", "PUT", "/db/usr1/y/user/usr2/add?db_role=read".to_string(), None));
-    Base::build("c26-two-owners-with-dbs", &script)
+    Base::build("c26-owners-with-dbs-x-y-w", &script)
 }
 
 fn pool_names(all: &[String]) -> Vec<(String, String)> {
     let mut v = vec![];
     for o in ["usr1", "usr2", "usr3"] {
-        for n in all.iter().map(|s| s.as_str()).chain(["x", "y", "cp1", "rn1", "ok1"]) {
+        for n in all.iter().map(|s| s.as_str()).chain(["x", "y", "w", "cp1", "rn1", "ok1"]) {
             v.push((o.to_string(), n.to_string()));
         }
     }
@@ -437,6 +443,35 @@ fn run_sequence(lab: &mut Lab, base: &Base, seq: &[Step], stats: Option<&Stats>,
         let escaped: Vec<&String> = touched.iter().filter(|p| !owners.iter().any(|o| p.starts_with(&format!("{DATA}/{o}/")) || **p == format!("{DATA}/{o}"))).collect();
         if !escaped.is_empty() {
             found.push(Found { signature: sig("escape"), what: format!("{ctx}; it created/changed/deleted {escaped:?}, outside the owner's directory {DATA}/{}/", owners.iter().next().unwrap_or(&"?")) });
+        }
+        // (a') every touched file belongs to the file set of a database the request names
+        let mut own: BTreeSet<String> = BTreeSet::new();
+        for (o, d) in &step.subjects {
+            for (_, p) in files(o, d) {
+                if let Some(p) = p {
+                    own.insert(p);
+                }
+            }
+        }
+        let is_dir = |p: &String| after.get(p).or(tree.get(p)).map(|k| k == "dir").unwrap_or(false);
+        let stray: Vec<&String> = touched.iter().filter(|p| !escaped.contains(p) && !is_dir(p) && !own.contains(*p)).collect();
+        if !stray.is_empty() && resp.ok() {
+            found.push(Found { signature: sig("not-own-file"), what: format!("{ctx}; it created/changed/deleted {stray:?}, which are not files (main, recovery log, backup, backup audit, audit) of the databases the request names {:?}", step.subjects) });
+        }
+        // (a'') a renamed / transferred database leaves no file behind under its old name
+        if let Some((o, d)) = &step.replaces
+            && resp.ok()
+            && !after_reg.iter().any(|x| x.0 == *o && x.1 == *d)
+            // only when the owner changed: then a file left behind is a file of the new owner's
+            // database lying in another owner's directory (a same-owner rename that leaves a file
+            // under the old name stays inside the owner's directory; not demanded by the statement)
+            && step.creates.as_ref().map(|c| c.0 != *o).unwrap_or(false)
+        {
+            let target: BTreeSet<String> = step.creates.iter().flat_map(|(o2, d2)| files(o2, d2).into_iter().filter_map(|x| x.1)).collect();
+            let left: Vec<String> = files(o, d).into_iter().filter_map(|(k, p)| p.map(|p| (k, p))).filter(|(_, p)| !target.contains(p) && after.get(p).map(|k| k != "dir").unwrap_or(false)).map(|(k, p)| format!("{p} ({k})")).collect();
+            if !left.is_empty() {
+                found.push(Found { signature: sig("left-behind"), what: format!("{ctx}; the database was renamed but {left:?} stayed behind under the old name/owner") });
+            }
         }
         // (b) foreign files
         let mut foreign: BTreeMap<String, String> = BTreeMap::new();
